@@ -99,23 +99,39 @@ pub open spec fn aval_scalar(v: IppValue) -> AVal {
     }
 }
 
-/// Abstraction of any concrete value: sets element-wise, collections as the member list in the
-/// map's iteration order.
+/// The collection value with the given members, listed in the order a `BTreeMap<String, _>` holds them.
+pub open spec fn coll_of(m: Map<String, AVal>) -> AVal {
+    AVal::Coll {
+        members: Seq::new(bt_order(m.dom()).len(), |i: int| {
+            let k = bt_order(m.dom())[i];
+            (k, if m.contains_key(k) { m[k] } else { AVal::NoValue })
+        }),
+    }
+}
+
+/// Abstraction of any concrete value: sets element-wise, collections member-wise.
 pub open spec fn aval(v: IppValue) -> AVal
     decreases v
 {
     match v {
-        IppValue::Array(list) => AVal::Set {
-            elems: Seq::new(list@.len(), |i: int| if 0 <= i < list@.len() { aval(list@[i]) } else { AVal::NoValue }),
-        },
-        IppValue::Collection(m) => AVal::Coll {
-            members: Seq::new(bt_order(m@.dom()).len(), |i: int| {
-                let k = bt_order(m@.dom())[i];
-                (k, if m@.contains_key(k) { aval(m@[k]) } else { AVal::NoValue })
-            }),
-        },
+        IppValue::Array(list) => AVal::Set { elems: abs_vals(list@) },
+        IppValue::Collection(m) => coll_of(abs_map(m@)),
         _ => aval_scalar(v),
     }
+}
+
+/// element-wise abstraction of a value list
+pub open spec fn abs_vals(l: Seq<IppValue>) -> Seq<AVal>
+    decreases l
+{
+    Seq::new(l.len(), |i: int| if 0 <= i < l.len() { aval(l[i]) } else { AVal::NoValue })
+}
+
+/// member-wise abstraction of a collection's map
+pub open spec fn abs_map(m: Map<String, IppValue>) -> Map<String, AVal>
+    decreases m
+{
+    Map::new(m.dom(), |k: String| if m.contains_key(k) { aval(m[k]) } else { AVal::NoValue })
 }
 
 pub open spec fn is_scalar(v: IppValue) -> bool {
